@@ -42,6 +42,7 @@ func comboName(psk, id []byte) string {
 type call struct {
 	mode       byte
 	psk, pskID []byte // arguments (PSK modes only)
+	altS, altE int    // which of the two sender keys / encapsulations this call uses
 }
 
 // objState mirrors hpke.state's sticky fields.
@@ -65,6 +66,12 @@ type pskEnv struct {
 	draw    int
 	seedR   []byte
 	seedS   []byte
+	// the two alternatives a history switches between (stale skS / pkS / enc
+	// of an earlier call on the same object must not survive)
+	alts [2]struct {
+		seedS, ikmE, enc []byte
+		S                keyPair
+	}
 }
 
 // judge evaluates one call's outcome.  got is nil when circl returned an error.
@@ -111,8 +118,15 @@ func (e *pskEnv) judge(role string, cl call, st objState, got hpke.Context, err 
 		lib.Violation(key, monPSK, d("class", "valid-inputs-refused", "err", err))
 	case rfcErr == nil && err == nil:
 		lib.Count("psk-rule:accepted-valid")
-		if !same(expect(st.psk, st.pskID)) {
-			lib.Violation("C07:psk-rule-output:"+modeNames[cl.mode]+":"+combo, monPSK, d("class", "accepted but the context differs from RFC 9180"))
+		if x := expect(st.psk, st.pskID); !same(x) {
+			// same keys as TestVerifSuites: one root cause, one key
+			c2 := e.c
+			c2.mode = cl.mode
+			r := byte(0)
+			if role == "receiver" {
+				r = 1
+			}
+			compareContext(monPSK, c2, r, got, x, d("class", "accepted but the context differs from RFC 9180"))
 		}
 	case rfcErr != nil && err != nil:
 		lib.Count("psk-rule:refused-invalid")
@@ -171,6 +185,8 @@ func (e *pskEnv) run(role string, calls []call) {
 		rcv, _ = e.suite.NewReceiver(e.R.sk, e.info)
 	}
 	for i, cl := range calls {
+		e.S, e.seedS = e.alts[cl.altS].S, e.alts[cl.altS].seedS
+		e.ikmE, e.enc = e.alts[cl.altE].ikmE, e.alts[cl.altE].enc
 		st.apply(cl)
 		if e.history != "" {
 			e.history += " ; "
@@ -179,6 +195,7 @@ func (e *pskEnv) run(role string, calls []call) {
 		if isPSK(cl.mode) {
 			e.history += "(" + comboName(cl.psk, cl.pskID) + ")"
 		}
+		e.history += fmt.Sprintf("[S%d,E%d]", cl.altS, cl.altE)
 		a := setupArgs{mode: cl.mode, psk: cl.psk, pskID: cl.pskID, skS: e.S.sk, pkS: e.S.pk}
 		if role == "sender" {
 			enc, sealer, err, pn := senderSetup(snd, a, e.ikmE)
@@ -216,7 +233,7 @@ func TestVerifPSKRules(t *testing.T) {
 		draw int
 	}
 	var jobs []job
-	draws := lib.Scale(1, 12)
+	draws := lib.Scale(1, 6)
 	i := 0
 	for _, k := range kems {
 		for _, kdf := range kdfs {
@@ -252,22 +269,26 @@ func pskCase(c cellID, draw int) {
 	r := lib.NewRng("c07/psk/"+c.String(), draw)
 	scheme := c.k.id.Scheme()
 	e := &pskEnv{draw: draw, c: c, suite: hpke.NewSuite(c.k.id, c.kdf, c.aead), rsuite: ref.Suite{KEM: uint16(c.k.id), KDF: uint16(c.kdf), AEAD: uint16(c.aead)}}
-	e.seedR, e.seedS = r.Bytes(scheme.SeedSize()), r.Bytes(scheme.SeedSize())
+	e.seedR = r.Bytes(scheme.SeedSize())
 	e.R = derive(scheme, e.seedR)
-	e.S = derive(scheme, e.seedS)
 	e.info = pickInfo(r, draw)
-	e.ikmE = r.Bytes(scheme.EncapsulationSeedSize())
-	enc, _, err := scheme.EncapsulateDeterministically(e.R.pk, e.ikmE)
-	if err != nil {
-		panic(err)
-	}
-	e.enc = enc
-	if c.k.dh {
-		// the reference's enc (= pkE) must be the same; if not TestVerifSuites reports it
-		_, renc, rerr := ref.GetDHKEM(e.rsuite.KEM).Encap(e.R.pkb, e.ikmE)
-		if rerr != nil || !lib.Eq(renc, enc) {
-			lib.Violation("C07:enc:"+c.k.name, monPSK, c.detail("got", enc, "want", renc))
-			return
+	for i := range e.alts {
+		a := &e.alts[i]
+		a.seedS = r.Bytes(scheme.SeedSize())
+		a.S = derive(scheme, a.seedS)
+		a.ikmE = r.Bytes(scheme.EncapsulationSeedSize())
+		enc, _, err := scheme.EncapsulateDeterministically(e.R.pk, a.ikmE)
+		if err != nil {
+			panic(err)
+		}
+		a.enc = enc
+		if c.k.dh {
+			// the reference's enc (= pkE) must be the same; if not TestVerifSuites reports it
+			_, renc, rerr := ref.GetDHKEM(e.rsuite.KEM).Encap(e.R.pkb, a.ikmE)
+			if rerr != nil || !lib.Eq(renc, enc) {
+				lib.Violation("C07:enc:"+c.k.name, monPSK, c.detail("got", enc, "want", renc))
+				return
+			}
 		}
 	}
 	psk := func() []byte { return r.Bytes(lib.Pick(r, 32, 33, 64, 100)) }
@@ -286,7 +307,7 @@ func pskCase(c cellID, draw int) {
 		for _, m := range modes {
 			if isPSK(m) {
 				for _, cb := range combos() {
-					e.run(role, []call{{m, cb[0], cb[1]}})
+					e.run(role, []call{{mode: m, psk: cb[0], pskID: cb[1]}})
 				}
 			} else {
 				e.run(role, []call{{mode: m}})
@@ -301,7 +322,7 @@ func pskCase(c cellID, draw int) {
 					if isPSK(m) {
 						continue
 					}
-					e.run(role, []call{{pm, cb[0], cb[1]}, {mode: m}})
+					e.run(role, []call{{mode: pm, psk: cb[0], pskID: cb[1]}, {mode: m, altS: 1, altE: 1}})
 				}
 			}
 		}
@@ -310,7 +331,7 @@ func pskCase(c cellID, draw int) {
 			var calls []call
 			for j := 0; j < 6; j++ {
 				m := modes[r.Intn(len(modes))]
-				cl := call{mode: m}
+				cl := call{mode: m, altS: r.Intn(2), altE: r.Intn(2)}
 				if isPSK(m) {
 					cb := combos()[r.Intn(4)]
 					if r.Intn(3) == 0 {
